@@ -311,3 +311,6 @@ def check(case, ctx):
 
 SUBS = [Sub("histories", check, strategy=case, quick=6000, thorough=100000)]
 KNOWN = {}
+
+# cases at scale (see pv/scale.py)
+RULE += scale.RULE
